@@ -5,6 +5,10 @@ HERE = os.path.dirname(os.path.dirname(os.path.abspath(__file__)))
 
 # id -> (technique, level text, level note, design ref)
 CHECKS = {
+ "C08": ("differential PBT: the same VM<StdLibState> continued without a checkpoint vs serialised+deserialised (JSON / MessagePack / bincode), plus the concatenated program in a fresh VM",
+         "Random (P1,P2,format): P1 = prefix of a generated scoping history (open groups with saved values, registers, aliases, macros incl. active characters, catcode/mathcode, \\endlinechar, \\globaldefs) plus extras (\\newInt/\\newIntArray, parameter macros, fresh names, open \\openin streams, open conditionals of four kinds, \\let of primitives/characters, \\mathchardef, token lists with control sequences, active-character definitions); P2 observes all of it, continues the history, closes every group and conditional and reads every target. Token-exact output and error title of P2 must be identical with and without the checkpoint; (de)serialisation panics are violations.",
+         "Trusted: serde_json / rmp-serde / bincode, the capture handlers, proptest. Quick tier: one format per case (rotating); thorough: all three per case. Terminal input and error-recovery modes are not exercised (StdLibState prints to stdout there).",
+         "DESIGN.md §4 C08"),
  "C05": ("PBT + exact small-scope termination: generated lig/kern programs and words, compiled program vs a direct TeX-main-loop interpreter (reference model), calibrated on the crate's unit-test tables, corpus loop verdicts and cmr10",
          "Random programs over 2-4 letter alphabets (all eight ligature forms, kerns, SKIP/STOP chains, shared chains, >255 instructions with redirected entry points, left-boundary label, right boundary char inside/outside the alphabet) handed over directly, through pl::File and through a TFM round trip; 5 words each, run() and run_with_options. compile reports a loop iff some pair diverges in the interpreter (decided exactly by a step bound on 2-3 letter alphabets, bounded otherwise, undecided skipped); loop-free: glyph/kern sequence and ligature originals equal, originals spell the word.",
          "Trusted: models/ligkern_interp.rs (TeX 1034-1040 transcription; reproduces 43+22+9 unit-test goldens, 91 corpus loop verdicts, 13 cmr10 facts), proptest.",
